@@ -117,6 +117,9 @@ func (tk TKey) Class() (TKeyClass, error) {
 // ClassBytes returns the bytes for a class of TKey, suitable for decoding by
 // each data instance.
 func (tk TKey) ClassBytes(class TKeyClass) ([]byte, error) {
+	if len(tk) < 2 {
+		return nil, fmt.Errorf("bad type-specific key: expected class %v got key of length %d", class, len(tk))
+	}
 	if tk[0] != byte(class) {
 		return nil, fmt.Errorf("bad type-specific key: expected class %v got %v", class, tk[0])
 	}
